@@ -241,6 +241,7 @@ var cleanNamePool = []string{"WARC-Type", "Content-Type", "X-Foo", "x-bar", "war
 var cleanValuePool = []string{"", "v", "a b", "a: b", "a:b", "x=y", "=", "?", "= ?", "<urn:uuid:1>", "\x00bin\xff", "tab\tinside", "2020-01-01T00:00:00Z", "v ", " v", "\tv", "v\t", " ", "a =? b"}
 
 func genC19(r *rng, n int, tier string, emit func(string, ...string)) {
+	genWfault(r, n/10+20, emit)
 	for i := 0; i < n; i++ {
 		b := genHeaderSection(r)
 		fault := r.chance(1, 15)
